@@ -26,6 +26,149 @@ type SocketFn struct {
 	Listen bool // returns only error and starts goroutines: the event listener
 }
 
+// T14: the list of replies a driver's discovery broadcast returns may still be appended to by the driver's reader
+// goroutine (it shares the backing array until the socket is closed): the API layer only reads it - no element is
+// stored, and it is handed to no function that reorders, compacts or clears a slice in place.
+func RuleRepliesReadOnly(r *Report, p *Program) {
+	r.Rule("T14", "the list of replies returned by the driver's broadcast is only read by its callers (never compacted, sorted or written in place)", 1)
+	up := p.SSAPkg("uhppote")
+	n := 0
+	for _, fn := range p.AllFuncs {
+		if pkgOf(fn) != up {
+			continue
+		}
+		for _, b := range fn.Blocks {
+			for _, in := range b.Instrs {
+				call, ok := in.(*ssa.Call)
+				if !ok {
+					continue
+				}
+				// a call (static or through the driver interface) whose first result is a list of byte slices
+				res := call.Call.Signature().Results()
+				if res.Len() == 0 {
+					continue
+				}
+				sl, ok := res.At(0).Type().Underlying().(*types.Slice)
+				if !ok || !isByteSlice(sl.Elem()) {
+					continue
+				}
+				name := ""
+				if call.Call.IsInvoke() {
+					name = call.Call.Method.Name()
+				} else if f := call.Call.StaticCallee(); f != nil && pkgOf(f) == up {
+					name = f.Name()
+				}
+				if name == "" || call.Referrers() == nil {
+					continue
+				}
+				for _, ref := range *call.Referrers() {
+					ex, ok := ref.(*ssa.Extract)
+					if !ok || ex.Index != 0 {
+						continue
+					}
+					n++
+					key := name + " in " + calleeName(fn)
+					if listOnlyRead(ex, 0, map[ssa.Value]bool{}) {
+						r.OK("T14", key, p.Pos(call.Pos()), "only read", true)
+					} else {
+						r.Bad("T14", key, p.Pos(call.Pos()), "the list of replies returned by "+name+" is written, reordered or handed to a function that may write it, while the driver's reader goroutine can still append to the same backing array")
+					}
+				}
+			}
+		}
+	}
+}
+
+// listOnlyRead: the list itself (not what its elements refer to) is only read: ranged over, indexed for loading,
+// measured, returned, viewed, or handed to a function of the module that only reads it in this sense.
+func listOnlyRead(v ssa.Value, depth int, seen map[ssa.Value]bool) bool {
+	if depth > 6 {
+		return false
+	}
+	if seen[v] || v.Referrers() == nil {
+		return true
+	}
+	seen[v] = true
+	for _, ref := range *v.Referrers() {
+		switch x := ref.(type) {
+		case *ssa.DebugRef, *ssa.Range, *ssa.Return, *ssa.Index, *ssa.If:
+		case *ssa.BinOp: // comparison with nil
+		case *ssa.IndexAddr:
+			if x.Referrers() != nil {
+				for _, r2 := range *x.Referrers() {
+					switch y := r2.(type) {
+					case *ssa.UnOp, *ssa.DebugRef:
+					case *ssa.Store:
+						if y.Addr == ssa.Value(x) {
+							return false
+						}
+					default:
+						return false
+					}
+				}
+			}
+		case *ssa.Slice, *ssa.Phi, *ssa.ChangeType:
+			if !listOnlyRead(x.(ssa.Value), depth+1, seen) {
+				return false
+			}
+		case *ssa.Extract:
+			if !listOnlyRead(x, depth+1, seen) {
+				return false
+			}
+		case *ssa.Store:
+			// spilled into a local (a named result, a variable captured by nobody): follow the loads of the local
+			al, ok := x.Addr.(*ssa.Alloc)
+			if !ok || x.Val != v || al.Referrers() == nil {
+				return false
+			}
+			for _, r2 := range *al.Referrers() {
+				switch y := r2.(type) {
+				case *ssa.Store, *ssa.DebugRef:
+				case *ssa.UnOp:
+					if !listOnlyRead(y, depth+1, seen) {
+						return false
+					}
+				default:
+					return false
+				}
+			}
+		case ssa.CallInstruction:
+			c := x.Common()
+			if b, ok := c.Value.(*ssa.Builtin); ok {
+				if b.Name() == "len" || b.Name() == "cap" {
+					continue
+				}
+				if b.Name() == "copy" && len(c.Args) == 2 && c.Args[1] == v && c.Args[0] != v {
+					continue
+				}
+				return false // append(list, ..) writes into the shared spare capacity
+			}
+			f := c.StaticCallee()
+			if f == nil {
+				return false
+			}
+			name := calleeName(f)
+			if f.Origin() != nil {
+				name = calleeName(f.Origin())
+			}
+			if readOnlyCallees[name] || strings.HasPrefix(name, "fmt.") {
+				continue
+			}
+			if !inModule(f) || f.Blocks == nil {
+				return false
+			}
+			for i, a := range c.Args {
+				if a == v && i < len(f.Params) && !listOnlyRead(f.Params[i], depth+1, seen) {
+					return false
+				}
+			}
+		default:
+			return false
+		}
+	}
+	return true
+}
+
 // goClosuresOf: the function literals a function starts as goroutines (directly).
 func goClosuresOf(fn *ssa.Function) []*ssa.Function {
 	var out []*ssa.Function
@@ -412,6 +555,16 @@ func RuleTransport(r *Report, p *Program, rules aspectSet) {
 			if len(writes) != 1 && !(len(writes) == 0 && writeFailedBefore(pa)) {
 				if len(writes) > 1 {
 					a2 = fmt.Sprintf("%d writes on one path", len(writes))
+				}
+			}
+			// the netip forms of the datagram writes refuse an IPv4-mapped destination on an IPv4 socket (WriteToUDP
+			// applies To4() itself): the destination handed to them must have been unmapped, or nothing is sent
+			for _, wi := range writes {
+				e := pa.Events[wi]
+				if strings.HasSuffix(e.Name, "AddrPort") && len(e.Args) >= 3 {
+					if dst := e.Args[2].String(); !strings.Contains(dst, "(netip.Addr).Unmap(") {
+						a2 = "the request is written with " + e.Name + " to " + cut(dst, 80) + ", which is not unmapped: for an IPv4-mapped destination on an IPv4 socket the write fails and no request reaches the network"
+					}
 				}
 			}
 			for _, ri := range reads {
